@@ -85,3 +85,17 @@ CLAIMED["C09"] = (
     _TRUST + " No symlinks are planted inside the mail root.",
     "DESIGN.md section 4 C09",
 )
+CLAIMED["C15"] = (
+    "exploration",
+    "bounded exhaustive enumeration + property-based sampling: every sequence set of <= 2 elements over {0..N+1,*} and ranges, N <= 3 (quick) / 5 (thorough), in each of 13 command forms end-to-end, <= 3 elements at function level; Hypothesis-sampled larger sets for N in 6..9; oracle = reference denotation function",
+    "The finite space named by the property is enumerated (exhaustive: true) end-to-end on mailboxes with sparse UIDs, observing what each command touched through marker keywords, COPYUID/destination read-back and source read-back, and compared with an independent denotation (a:b = b:a, * = last, absent UIDs skipped, n:* includes the last, out-of-range sequence number => BAD and nothing touched).",
+    _TRUST + " The function-level slice imports sequence_set_to_list/clip_uid_set by name and is skipped (noted in evidence) if they are refactored away.",
+    "DESIGN.md section 4 C15",
+)
+CLAIMED["C20"] = (
+    "exploration",
+    "property-based testing: Hypothesis-generated POP3 command histories interleaved with IMAP mutations, deliveries, packs and virtual-time advances (plus bounded exhaustive enumeration of small dot-line bodies); oracle = IMAP observer read-back as ground truth for snapshot stability, UIDL = UID, RETR content/octets, and INBOX after QUIT/RSET/drop",
+    "Generated interleavings of one or two POP3 sessions with IMAP APPEND/STORE/EXPUNGE/MOVE, MH deliveries and folder packs; numbers, sizes and UIDL values must stay fixed for the session, RETR must deliver exactly the announced octets of the IMAP BODY[] of that UID with correct dot-stuffing, and INBOX after QUIT must be INBOX before minus exactly the marked messages (nothing removed after RSET or a drop).",
+    _TRUST + " TOP is judged on framing, identity and prefix-of-message only (the property does not fix its exact line count).",
+    "DESIGN.md section 4 C20",
+)
